@@ -116,7 +116,9 @@ pub fn run(out: &Path, seed: u64, thorough: bool, prop: &str) -> Result<(), Box<
     let mut n_calls = 0u64;
     let mut n_sops = 0u64;
     let mut aterms: Vec<String> = Vec::new();
-    for i in 0..n {
+    // the scripted histories of the search corpus are model cases as well
+    let scripted: Vec<Vec<Op>> = crate::simcheck::corpus().into_iter().filter(|c| c.1 == "c05").map(|c| c.2).collect();
+    for i in 0..(n + scripted.len()) {
         let mut p = GenParams::small();
         p.blocks = 5 + rng.below(9);
         p.max_txs = 5;
@@ -124,10 +126,12 @@ pub fn run(out: &Path, seed: u64, thorough: bool, prop: &str) -> Result<(), Box<
         p.schedule = *rng.pick(&[CommitSchedule::Never, CommitSchedule::Random]);
         p.p_reorg = 10; p.p_clear = 6; p.p_reopen = 0; p.p_mine = 20; p.max_mine = 11;
         if prop == "c08" { p.p_pool_script = 70; p.p_pool_tail = 25; p.edge_plans = true; }
-        let mut h = gen_history(&mut rng, &p);
-        h = with_schedule(&h, p.schedule, &mut rng);
-        if prop == "c05" { let k = 3 + rng.below(6) as usize; h = inject_malformed(&mut rng, &h, k).0; }
-        if prop == "c08" { h = reinscribe(&h, &mut rng); }
+        let mut h = if i < n { gen_history(&mut rng, &p) } else { scripted[i - n].clone() };
+        if i < n {
+            h = with_schedule(&h, p.schedule, &mut rng);
+            if prop == "c05" { let k = 3 + rng.below(6) as usize; h = inject_malformed(&mut rng, &h, k).0; }
+            if prop == "c08" { h = reinscribe(&h, &mut rng); }
+        }
         let mut run = Run::new();
         let mut accounts: BTreeSet<Address> = BTreeSet::new();
         accounts.insert(indexer);
